@@ -12,7 +12,8 @@ from pathlib import Path
 
 SLOTS = 4
 PIDS = ["C%02d" % i for i in range(1, 21)]
-DST = Path("/verif/seeded/crossmatrix.json")
+SEED_ROOT = Path(os.environ.get("SEED_ROOT", "/verif/seeded"))   # staging area of not yet imported seeds
+DST = Path(os.environ.get("XM_OUT", "/verif/seeded/crossmatrix.json"))
 
 
 def sh(cmd, cwd=None, env=None):
@@ -59,7 +60,7 @@ def work(args):
 
 def main():
     only = [a for a in sys.argv[1:] if not a.startswith("--")]
-    seeds = sorted(p for p in Path("/verif/seeded").iterdir() if (p / "patch.diff").exists() and (not only or p.name in only))
+    seeds = sorted(p for p in SEED_ROOT.iterdir() if (p / "patch.diff").exists() and (not only or p.name in only))
     groups = [(k, seeds[k::SLOTS]) for k in range(SLOTS)]
     groups[0] = (0, [None] + groups[0][1])          # the unchanged tree first: no check may alarm
     res = json.loads(DST.read_text()) if (only and DST.exists() and not TARGET_ONLY) else {}
